@@ -174,6 +174,8 @@ def show(rt):
         req = ", ".join(f"{n}: {show(t)}" for n, t in sorted(rt[1], key=lambda p: p[0]))
         opt = ", ".join(f"{n}?: {show(t)}" for n, t in sorted(rt[2], key=lambda p: p[0]))
         return "TD{" + ", ".join(x for x in (req, opt) if x) + "}"
+    if k == "untypable":
+        return "<type cannot be collected>"
     return f"Unknown({rt[1]})"
 
 
